@@ -20,6 +20,13 @@ def cfg_of(fi):
     return _cfg_cache[k][1]
 
 
+TIER = ['quick']      # current tier (set by __main__.run_rules): tables use larger finite domains under 'thorough'
+
+
+def thorough():
+    return TIER[0] == 'thorough'
+
+
 def reset_caches():
     _cfg_cache.clear()
     _callers.clear()
